@@ -128,6 +128,34 @@ theorem C15_delete_fn_error (cfg : Cfg) (record : Rec) (k : Int) (outs : List Ou
     (deleteObj cfg record { outcomes := outs } st).1 = .error (.err k) := by
   simp [deleteObj, hcd, customDeleteFn, hdec, bind_run, Engine.nextOutcome, hout, Engine.emit, throwA_run, Bind.bind]
 
+/-- A REDELIVERED REQUEST SUCCEEDS. With the default delete (or any delete function that succeeds) and nothing injected,
+the delete consumer's handler returns normally — so the event is acknowledged — WHATEVER run state the record is in when it is
+read: in particular for a run that is already DataDeleted (a lost acknowledgement, a crash between Store and Ack, a duplicate
+event). It writes the scrubbed record once more. (Seeded change C15_m3 made this handler fail on DataDeleted runs.) -/
+theorem C15_redelivered_request_succeeds (cfg : Cfg) (e : Event) (st : OpSt) (record : Rec)
+    (hcd : cfg.customDelete = false) (hc : st.cancelled = false)
+    (hread : (lookupRes st.sys e.runId st.stale).2 = some record) :
+    (deleteHandle cfg e {} st).1 = .ok () ∧ (deleteHandle cfg e {} st).2.sys = st.sys.write cfg (deletedRec cfg record) := by
+  have hf : ∀ n, (({} : Env).faults.lookup n) = none := fun _ => rfl
+  unfold deleteHandle
+  rw [bind_run]
+  rcases hl : lookup e.runId {} st with ⟨v, st'⟩
+  have h1 : v = .ok (some record) := by
+    have := congrArg Prod.fst hl
+    simp [lookup, Engine.call, hc, hf, hread] at this
+    exact this.symm
+  subst h1
+  obtain ⟨_, hsys, _, _, hc', _, _⟩ := lookup_ok hl
+  simp only []
+  rw [bind_run]
+  simp only [deleteObj, hcd, Bool.false_eq_true, if_false, pure_run]
+  unfold updateRecord
+  dsimp only
+  rw [deletedRec_eq cfg record (-7777777) (by simp [hcd])]
+  have := store_run_ok cfg (deletedRec cfg record) {} st' hc' (hf _)
+  rw [hsys] at this
+  exact ⟨this.1, this.2.1⟩
+
 theorem C15_tie_order : Tie.runDelete = true ∧ Tie.rscUpdate = true := by decide +kernel
 
 /-- non-vacuity: cancel, request deletion, the delete consumer scrubs with the default marker; the request from a Running
